@@ -3,8 +3,8 @@
    helper sources.  [W_boot] records for each of its 13 closures the signature it was
    declared with; [boot_store_ok]: the booted store is typed by it under [policy6] — every
    helper body is a typed statement list (the reducers use `$init f`, MAP / FILTER / ITER
-   create a closure) — and [boot_prelude_ok]: the prelude indices carry the honest
-   signatures `$+` / `$*` rely on. *)
+   create a closure) — and [boot_reducers_ok]: the reducer values the checker plants for
+   `$+ $* $&& $|| $& $|` are good function values of that store. *)
 From SSL.Model Require Import Base Ty Float Value Ops Seq Syntax Rt Recreate Exec Check Top.
 From SSL.Lemmas Require Import TyLemmas ValueLemmas ExecLemmas SoundLemmas CellLemmas
   SoundDefs SoundVals SoundTyping Sound1 Sound2 Sound3 Sound4 Sound5 SoundRec1 Sound6
@@ -25,8 +25,12 @@ Definition W_boot : sty :=
 Lemma boot_eq : the_boot = Some (mkBooted st_boot pre_boot red_boot).
 Proof. reflexivity. Qed.
 
-Theorem boot_prelude_ok : prelude_ok pre_boot W_boot.
-Proof. repeat split; reflexivity. Qed.
+(* the reducer tables of `$+` / `$*` hold good function values of the booted store *)
+Theorem boot_reducers_ok :
+  Forall (fun kf => vgood W_boot (snd kf)) (r_sums red_boot ++ r_products red_boot) /\
+  vgood W_boot (r_all red_boot) /\ vgood W_boot (r_any red_boot) /\
+  vgood W_boot (r_and red_boot) /\ vgood W_boot (r_or red_boot).
+Proof. repeat constructor. Qed.
 
 (* [T_Reduce] at the element type read off the iterator's type *)
 Lemma T_Reduce_i (FL : Policy) W0 G K it init f Ti T0 Tf R :
@@ -40,7 +44,7 @@ Proof. intros. eapply T_Reduce; eassumption. Qed.
 
 Ltac side := first [reflexivity | vm_compute; reflexivity | vm_compute; tauto].
 (* the policy premises: [gate] for an iterator operator, [clos] for a closure literal *)
-Ltac gate := apply gate6_intro; first [assumption | exact boot_prelude_ok].
+Ltac gate := apply gate6.
 Ltac ty :=
   lazymatch goal with
   | |- typed _ _ _ (IVar _) _ =>
@@ -81,8 +85,6 @@ Ltac ty :=
   | |- typed _ _ _ (IUn UCollect _) _ => eapply T_Collect; [gate|ty|side]
   | |- typed _ _ _ (IReduce _ _ _) _ => eapply T_Reduce_i; [gate|ty|ty|ty|side|side|side|side]
   | |- typed _ _ _ (ITypeFilter _ _) _ => eapply T_TypeFilter; [gate|ty|side|side|side|vm_compute; tauto]
-  | |- typed _ _ _ (IUn USum _) _ => eapply T_Sum; [gate|ty|side]
-  | |- typed _ _ _ (IUn UProduct _) _ => eapply T_Product; [gate|ty|side]
   | |- @typed ?F ?W ?G ?K ?i ?T =>
       let i' := eval hnf in i in progress (change (@typed F W G K i' T)); ty
   end
@@ -122,7 +124,7 @@ with tyarms :=
   end
 with clos :=
   first [ exact I
-        | right; split; [side|eexists; eexists; split; [tylist|side]] ].
+        | split; [side|eexists; eexists; split; [tylist|side]] ].
 Ltac tyc := eapply typed_conv; [ty|vm_compute; reflexivity].
 
 Lemma funs_ok_forall (FL : Policy) W st :
@@ -143,7 +145,7 @@ Proof.
     + eapply IH; eassumption.
 Qed.
 
-Theorem boot_store_ok : @store_ok (policy6 pre_boot) W_boot st_boot.
+Theorem boot_store_ok : @store_ok policy6 W_boot st_boot.
 Proof.
   split.
   - split; [reflexivity|]. intros [|loc] t H; discriminate H.
